@@ -161,7 +161,7 @@ pub fn patterns() -> Vec<Pat> {
 
 fn values(thorough: bool) -> Vec<(i64, u64, i32)> {
     let mut days: Vec<i64> = if thorough { ab::days_b() } else { ab::days_b_small() };
-    for y in [2022i64, -5, 12_345, -123_456, 987] {
+    for y in [2022i64, -5, 12_345, -123_456, 987, -101, -201, -401] {
         for m in 1..=12u32 {
             for d in [1u32, 9, 10, 28] {
                 if let Some(x) = cal::valid_day(y, m, d) {
